@@ -122,7 +122,9 @@ def udt(draw, earlier, used_names, used_tids, depth_of):
             off = pad_to(off, es) + gap
             arr = 0
             if kind == "array":
-                arr = draw(st.one_of(st.integers(1, 8), st.integers(1, 8), st.integers(9, 40)))
+                # (now and then a member so large that one element of the structure no longer fits a packet: 500 / 4000 bytes)
+                arr = draw(st.one_of(st.integers(1, 8), st.integers(1, 8), st.integers(9, 40), st.integers(1, 8), st.integers(9, 40),
+                                     st.sampled_from([130, 260, 520, 1010])))
             mname = draw(ident(mnames, maxlen=8))
             hidden = kind == "hidden"
             if hidden:
